@@ -220,7 +220,11 @@ impl Options {
 		for i in 0..self.columns.len() {
 			metadata.push(format!("col{}={}", i, self.columns[i].as_string()));
 		}
-		try_io!(std::fs::write(path, metadata.join("\n")));
+		// Write aside and rename: a failed or interrupted write must not destroy the existing
+		// metadata (and with it the salt).
+		let tmp = path.with_extension("tmp");
+		try_io!(std::fs::write(&tmp, metadata.join("\n")));
+		try_io!(std::fs::rename(&tmp, path));
 		Ok(())
 	}
 
